@@ -1088,6 +1088,8 @@ ecdsa_key_gen(ec_curve_p curve, bn_p d, ec_point_p Q) {
 	/* Reduce random number. */
 	/*  d = (c mod (n − 1)) + 1 */
 	BN_RET_ON_ERR(bn_mod_reduce(d, &curve->n, &curve->n_mod_rd_data));
+	if (0 != bn_is_zero(d))
+		return (-1);
 	/* Q = dG */
 	ec_point_mult_bp(d, curve, Q);
 	BN_RET_ON_ERR(ec_point_check_as_pub_key(Q, curve));
